@@ -192,6 +192,52 @@ def roles_roundtrip(report, backend, rng, keys):
         relay.close()
 
 
+def role_change_case(report, backend, rng, keys):
+    """the roles of a pubkey are changed between two authentications (in the same process, within seconds): each new
+    authentication must act on the roles as last set — revoked, narrowed, widened"""
+    relay = Relay(backend, authentication={"enabled": True, "relay_urls": [URL], "actions": {"save": "w", "query": "r"}})
+    try:
+        sk = keys[0]
+        pk = sk.public_key.hex()
+        seq = [rng.choice(["rw", "w", "r"])] + rng.sample(["s", "r", "w", "rw", "z"], 3)
+        seeded = False
+        for step, roles in enumerate(seq):
+            relay.set_roles(pk, roles)
+            got = relay.run(relay.storage.get_auth_roles(pk))
+            payload = {"backend": backend, "case": "role-change", "sequence": seq, "step": step}
+            if set(got) != set(roles):
+                report.property_failure("%s: roles of %s.. read back as %r after setting %r" % (backend, pk[:6], sorted(got), roles), payload, None)
+            c = Conn(relay)
+            c.send(["AUTH", auth_answer(relay, sk, c.challenge())])
+            ev = relay.signed_event(sk, kind=1, content="step %d as %s" % (step, roles))
+            n = len(c.out)
+            c.send(["EVENT", ev])
+            oks = [f for f in c.frames(n) if isinstance(f, list) and f and f[0] == "OK"]
+            stored = ev["id"] in relay.store.ids()
+            may_save = "w" in roles
+            if len(oks) != 1 or bool(oks[0][2]) != may_save or stored != may_save:
+                report.property_failure(
+                    "%s: after the roles of a pubkey were changed %s -> %r and it authenticated again, its EVENT was %s (save needs 'w')"
+                    % (backend, " -> ".join(repr(x) for x in seq[:step]) or "(unset)", roles,
+                       "accepted" if (oks and oks[0][2]) or stored else "refused"), payload, None)
+            seeded = seeded or stored
+            n = len(c.out)
+            c.send(["REQ", "q", {"kinds": [1]}])
+            fr = c.frames(n)
+            served = any(isinstance(f, list) and f[0] in ("EVENT", "EOSE") for f in fr)
+            may_query = "r" in roles
+            if served != may_query:
+                report.property_failure(
+                    "%s: after the roles of a pubkey were changed %s -> %r and it authenticated again, its REQ was %s (query needs 'r')"
+                    % (backend, " -> ".join(repr(x) for x in seq[:step]) or "(unset)", roles, "served" if served else "refused"),
+                    payload, None)
+            c.close()
+            report.case(("role-change", backend, tuple(seq), step), nontrivial=True, sample={"backend": backend, "sequence": seq, "step": step})
+            report.count("role_changes_" + backend)
+    finally:
+        relay.close()
+
+
 def run(report, tier, seed):
     rng = random.Random(seed)
     drv = common.Driver()
@@ -205,7 +251,8 @@ def run(report, tier, seed):
         "start_client on both backends: save roles x query roles x connection identity (unauthenticated, r, w, rw, s) x event kind "
         "(regular, ephemeral, parameterised replaceable) with "
         "an all-powerful observer watching broadcasts; the homeserver output validator on stored answers and live pushes; "
-        "role assignments set repeatedly and read back; non-trivial = something must be refused")
+        "role assignments set repeatedly and read back; the roles of a pubkey changed (revoked / narrowed / widened) between two "
+        "authentications, EVENT and REQ after each; non-trivial = something must be refused")
     report.assumptions += ["identities are established with real NIP-42 answers; the per-object hook evaluate_target is the shipped no-op"]
     try:
         can_do_matrix(report, drv)
@@ -229,6 +276,8 @@ def run(report, tier, seed):
                     path_case(report, backend, s, q, i, keys, kind=30000)
             output_validator_case(report, backend, keys)
             roles_roundtrip(report, backend, rng, keys)
+            for _ in range(2 if tier == "quick" else 12):
+                role_change_case(report, backend, rng, keys)
     finally:
         drv.close()
 
